@@ -85,6 +85,19 @@ def main(write, HEADER, parse, PKG):
         raise Unsupported("output.py", fn2, "bore-field loop not found")
     out.append(f"def boreRowsIterExpr : String := {json_str(ast.unparse(loop.iter))}")
     out.append(f"def boreRowExpr : String := {json_str(ast.unparse(loop.body[0]))}")
+    # the hourly loads table: source of the loads, loop header and the two statements of the loop body
+    fn3 = find_function(tree, "OutputManager.get_hourly_loading_data")
+    if fn3 is None:
+        raise Unsupported("output.py", tree, "get_hourly_loading_data not found")
+    fn3 = alpha(fn3)      # design -> v0, hourly_loadings -> v1, csv_array -> v2, hour -> v3, hour_load -> v4, month/day/hour -> v5..v7
+    loop3 = next((n for n in fn3.body if isinstance(n, ast.For)), None)
+    src3 = next((n for n in fn3.body if isinstance(n, ast.Assign) and isinstance(n.value, ast.Attribute)), None)
+    if loop3 is None or src3 is None:
+        raise Unsupported("output.py", fn3, "loads-table loop not found")
+    out.append(f"def loadingSourceExpr : String := {json_str(ast.unparse(src3))}")
+    out.append(f"def loadingLoopExpr : String := {json_str('for ' + ast.unparse(loop3.target) + ' in ' + ast.unparse(loop3.iter))}")
+    out.append("def loadingBody : List String := [" + ", ".join(json_str(" ".join(ast.unparse(t).split())) for t in loop3.body) + "]")
+    out.append(f"def loadingReturnExpr : String := {json_str(ast.unparse(fn3.body[-1]))}")
     # GHE.size as a list of state-machine operations
     ghx = parse("ground_heat_exchangers.py")
     size = find_function(ghx, "GHE.size")
